@@ -860,7 +860,7 @@ fn shape_check(label: &str, origin: &str, exp: &shape::E, bytes: &[u8]) -> Resul
     if !d.is_empty() {
         pv_fail!(
             format!("shape-mismatch:{origin}:{label}:{}", shape::signature(&d)),
-            "{label}: {} does not have the shape the Byron CDDL gives this value: {}",
+            "{label}: {} does not have the shape the CDDL gives this value: {}",
             short(bytes),
             shorts(d.iter().map(|x| format!("{} {} {}", x.path, x.what, x.detail)).collect::<Vec<_>>().join("; "))
         );
@@ -1199,11 +1199,14 @@ pub fn run(s: &Session) {
         is cut out of the block with the independent reader, decoded on its own as byron::BlockHead / byron::EbbHead (no KeepRaw) and must re-encode \
         byte-identically with full consumption; the decoded header / block / transaction must have, item by item, the shape the Byron CDDL gives it \
         (shape oracle written with cborx: array lengths, variant numbers, field positions, tag 24 / 258 wrapping, definite/indefinite form, minimal heads). \
-        (b) values of 90 families of era types built from a plain choice sequence (no seed) by builders that construct only representable \
+        (b) values of 92 families of era types built from a plain choice sequence (no seed) by builders that construct only representable \
         values (KeepRaw parts built by decoding their own encoding; NonEmptySet/NonEmptyKeyValuePairs non-empty; PositiveCoin >= 1; NonZeroInt != 0; \
         denominators >= 1; Constr 102 with Some index; byron Other tags outside the known variants); oracle decode(to_vec(v)) == v (PartialEq, Debug \
-        rendering where PartialEq is not derived), full consumption, encoding is one well-formed item per the independent reader; for every Byron type additionally the shape oracle on the \
-        encoder's output (expected skeleton built from the value's named fields per the CDDL, never from the library's encoder). Non-trivial value = \
+        rendering where PartialEq is not derived), full consumption, encoding is one well-formed item per the independent reader; for every Byron type and for the hand-written / tolerant \
+        post-Byron codecs (RationalNumber, PoolMetadata, Relay, Nonce, ExUnits, ExUnitPrices, TransactionInput, StakeCredential, NativeScript, Metadatum, \
+        AuxiliaryData, MoveInstantaneousReward, Value, Mint, DatumOption, ScriptRef, outputs, Redeemer(s), CostModels, Set, PlutusData, Tx envelope) \
+        additionally the shape oracle on the encoder's output (expected skeleton built from the value's named fields per the CDDL - array lengths, variant, \
+        key and tag numbers, tag 24 wrapping - never from the library's encoder). Non-trivial value = \
         exercised a hand-written codec or chose an enum variant other than the first; distinct = distinct (type, encoded bytes)");
     s.assume("artefacts the library does not decode (conway8.block needs the `relaxed` feature) are outside the property and counted as discarded");
     s.assume("a transaction artefact is checked through every era Tx codec that accepts it (what MultiEraTx::decode may pick)");
